@@ -255,6 +255,8 @@ func (cc *ClientConn) newStream(
 	err = rw.Write(ctx, &rpc)
 	if err != nil {
 		log.Error().Err(err).Msg("NewStream: failed to open")
+		// No stream (and so no read loop) will own the registration: release it.
+		teardown()
 		return nil, err
 	}
 
